@@ -152,7 +152,7 @@ impl FixedWindowState {
 
 impl SlidingLogState {
     pub open spec fn wf(&self, clk: Clock) -> bool {
-        self.request_log@.len() <= self.limit_for_period && sorted_upto(self.request_log@, clk.now@) && self.limit_for_period >= 1 && self.window_duration.nanos > 0
+        self.request_log@.len() <= self.limit_for_period && sorted_upto(self.request_log@, clk.now@) && self.window_duration.nanos > 0
     }
     /// the log is the not-yet-evicted suffix of the admission history, everything before it is older than the window, and the
     /// whole history is spaced: any limit+1 consecutive admissions span at least window_duration
@@ -165,15 +165,14 @@ impl SlidingLogState {
         &&& spaced(gh.adm, self.limit_for_period as nat, self.window_duration.nanos as nat)
     }
     pub fn new(limit_for_period: usize, window_duration: Duration, timeout_duration: Duration) -> (r: Self)
-        requires limit_for_period >= 1, window_duration.nanos > 0,
+        requires window_duration.nanos > 0,   // a limit of ZERO is inside the domain of the log (C15: "all limits"): nothing is ever admitted
         ensures
             forall|clk: Clock| #![trigger r.wf(clk)] r.wf(clk) && r.wf_adm(AdmLog { adm: Seq::empty() }, clk),   // #starts_with_an_empty_log_and_history [C02]
             r.request_log@.len() == 0 && r.limit_for_period == limit_for_period && r.window_duration == window_duration && r.timeout_duration == timeout_duration,   // #keeps_configuration [C02,C15]
     //@body SlidingLogState::new
 
     pub fn try_acquire<Req, Res, E>(&mut self, clk: &mut Clock, Tracked(tr): Tracked<&mut Trace<Req, Res, E>>, Tracked(gh): Tracked<&mut AdmLog>) -> (r: AcquireResult)
-        requires old(self).wf(*old(clk)), old(self).wf_adm(*old(gh), *old(clk)),
-            forall|i: int| 0 <= i < old(self).request_log@.len() ==> (#[trigger] old(self).request_log@[i]).t + old(self).window_duration.nanos <= u128::MAX,   // domain: instant + window representable
+        requires old(self).wf(*old(clk)), old(self).wf_adm(*old(gh), *old(clk)),   // (an expiry instant that is not representable is inside the domain: that slot never frees up)
         ensures
             final(self).wf_adm(*final(gh), *final(clk)),   // #any_limit_plus_one_consecutive_admissions_span_at_least_the_window [C02]
             final(gh).adm == (if r == zero() { old(gh).adm.push(final(clk).now@) } else { old(gh).adm }),   // #admission_history_grows_exactly_when_admitted [C02]
@@ -185,7 +184,7 @@ impl SlidingLogState {
                else { r != zero() && final(self).request_log@ == kept } }),   // #evicts_only_expired_entries_and_admits_iff_fewer_than_limit_remain [C02,C15]
             *final(tr) == (Trace { permits: old(tr).permits + if r == zero() { 1nat } else { 0nat }, ..*old(tr) }),   // #admission_recorded_iff_ok_zero [C02,C15]
             r matches Ok(w) ==> w.nanos <= old(self).timeout_duration.nanos || w.nanos == 0,   // #wait_never_exceeds_timeout [C15]
-            r matches Ok(w) ==> (w.nanos > 0 ==> final(self).request_log@.len() > 0 && w.nanos == final(self).request_log@[0].t + old(self).window_duration.nanos - final(clk).now@),   // #wait_is_the_time_until_the_oldest_entry_expires [C15]
+            r matches Ok(w) ==> (w.nanos > 0 ==> final(self).request_log@.len() > 0 && (final(self).request_log@[0].t + old(self).window_duration.nanos <= u128::MAX ==> w.nanos == final(self).request_log@[0].t + old(self).window_duration.nanos - final(clk).now@)),   // #wait_is_the_time_until_the_oldest_entry_expires [C15]
             r matches Err(d) ==> d == old(self).timeout_duration,   // #rejects_when_the_next_slot_is_beyond_timeout [C15]
             final(clk).now@ >= old(clk).now@,   // #clock_monotone
     //@body SlidingLogState::try_acquire
